@@ -63,7 +63,7 @@ package casket
 //@   modifies ghost:serversStarted, Instance.servers, E:ServerListener
 //@   ensures serversStarted == old(serversStarted) + 1
 //@ func ValidateAndExecuteDirectives
-//@   modifies Instance.casketfileInput, Instance.context, Instance.OnFirstStartup, Instance.OnStartup, Instance.OnRestart, Instance.OnRestartFailed, Instance.OnShutdown, Instance.OnFinalShutdown, Instance.Storage
+//@   modifies Instance.casketfileInput, Instance.context, Instance.OnFirstStartup, Instance.OnStartup, Instance.OnRestart, Instance.OnRestartFailed, Instance.OnShutdown, Instance.OnFinalShutdown, Instance.Storage, MV:map[int]map[string]interface{}, MD:map[int]map[string]interface{}, MV:map[string]interface{}, MD:map[string]interface{}
 //@   requires inst != nil
 //@   ensures !justValidate ==> (unchanged_except("Instance.OnRestart", inst) && unchanged_except("Instance.OnRestartFailed", inst) && unchanged_except("Instance.OnShutdown", inst))
 
@@ -81,7 +81,7 @@ package casket
 //@ func startWithListenerFds
 //@   ensures [list_entries_stay_live] forall(k, 0, len(instances), instances[k] != nil && instances[k].wg != nil)
 //@   requires inst != nil && inst.wg != nil && nFirst == 0 && nStartup == 0 && serversStarted == 0
-//@   modifies G:github.com/tmpim/casket.instances, E:*github.com/tmpim/casket.Instance, ghost:nFirst, ghost:nStartup, ghost:serversStarted, G:github.com/tmpim/casket.started, E:ServerListener, Instance.casketfileInput, Instance.context, Instance.OnFirstStartup, Instance.OnStartup, Instance.OnRestart, Instance.OnRestartFailed, Instance.OnShutdown, Instance.OnFinalShutdown, Instance.Storage, Instance.servers
+//@   modifies G:github.com/tmpim/casket.instances, E:*github.com/tmpim/casket.Instance, ghost:nFirst, ghost:nStartup, ghost:serversStarted, G:github.com/tmpim/casket.started, E:ServerListener, Instance.casketfileInput, Instance.context, Instance.OnFirstStartup, Instance.OnStartup, Instance.OnRestart, Instance.OnRestartFailed, Instance.OnShutdown, Instance.OnFinalShutdown, Instance.Storage, Instance.servers, MV:map[int]map[string]interface{}, MD:map[int]map[string]interface{}, MV:map[string]interface{}, MD:map[string]interface{}
 //@   ensures [only_the_started_instance_gets_callbacks] unchanged_except("Instance.OnRestart", inst) && unchanged_except("Instance.OnRestartFailed", inst) && unchanged_except("Instance.OnShutdown", inst)
 //@   ensures [failed_start_leaves_no_instance] result != nil ==> len(instances) == old(len(instances))
 //@   ensures [successful_start_registers_instance] result == nil ==> len(instances) == old(len(instances)) + 1
@@ -190,7 +190,7 @@ package casket
 //@   ensures unchanged_except("Instance.OnRestart", inst) && unchanged_except("Instance.OnRestartFailed", inst) && unchanged_except("Instance.OnShutdown", inst)
 //@   requires inst != nil && inst.wg != nil
 //@   may_panic
-//@   modifies ghost:nStart, ghost:nLive, G:github.com/tmpim/casket.instances, E:*github.com/tmpim/casket.Instance, G:github.com/tmpim/casket.started, Instance.casketfileInput, Instance.context, Instance.OnFirstStartup, Instance.OnStartup, Instance.OnRestart, Instance.OnRestartFailed, Instance.OnShutdown, Instance.OnFinalShutdown, Instance.Storage
+//@   modifies ghost:nStart, ghost:nLive, G:github.com/tmpim/casket.instances, E:*github.com/tmpim/casket.Instance, G:github.com/tmpim/casket.started, Instance.casketfileInput, Instance.context, Instance.OnFirstStartup, Instance.OnStartup, Instance.OnRestart, Instance.OnRestartFailed, Instance.OnShutdown, Instance.OnFinalShutdown, Instance.Storage, E:ServerListener, Instance.servers, MV:map[int]map[string]interface{}, MD:map[int]map[string]interface{}, MV:map[string]interface{}, MD:map[string]interface{}
 //@   ensures nStart == old(nStart) + 1
 //@   ensures (result == nil ==> nLive == old(nLive) + 1) && (result != nil ==> nLive == old(nLive))
 //@   ensures_on_panic nStart <= old(nStart) + 1 && nLive == old(nLive)
@@ -223,7 +223,7 @@ package casket
 //@   requires forall(k, 0, len(instances), instances[k] != nil && instances[k].wg != nil)
 //@   ensures [list_entries_stay_live] forall(k, 0, len(instances), instances[k] != nil && instances[k].wg != nil)
 //@   requires i != nil && i.wg != nil && nRestart == 0 && nFailed == 0 && nShut == 0 && nStop == 0 && nStart == 0 && nLive == 0
-//@   modifies ghost:nRestart, ghost:nFailed, ghost:nShut, ghost:nStop, ghost:nStart, ghost:nLive, ptr:error, ptr:*github.com/tmpim/casket.Instance, G:github.com/tmpim/casket.instances, E:*github.com/tmpim/casket.Instance, G:github.com/tmpim/casket.started, Instance.casketfileInput, Instance.context, Instance.OnFirstStartup, Instance.OnStartup, Instance.OnRestart, Instance.OnRestartFailed, Instance.OnShutdown, Instance.OnFinalShutdown, Instance.Storage
+//@   modifies ghost:nRestart, ghost:nFailed, ghost:nShut, ghost:nStop, ghost:nStart, ghost:nLive, ptr:error, ptr:*github.com/tmpim/casket.Instance, G:github.com/tmpim/casket.instances, E:*github.com/tmpim/casket.Instance, G:github.com/tmpim/casket.started, Instance.casketfileInput, Instance.context, Instance.OnFirstStartup, Instance.OnStartup, Instance.OnRestart, Instance.OnRestartFailed, Instance.OnShutdown, Instance.OnFinalShutdown, Instance.Storage, E:ServerListener, Instance.servers, MV:map[int]map[string]interface{}, MD:map[int]map[string]interface{}, MV:map[string]interface{}, MD:map[string]interface{}
 //@   at call dynamic#1 do nRestart = nRestart + 1
 //@   at call dynamic#2 do nShut = nShut + 1
 //@   at call startWithListenerFds before [restart_callbacks_first] nRestart == len(i.OnRestart) && nStop == 0 && nShut == 0
@@ -285,7 +285,7 @@ package casket
 //@   requires forall(k, 0, len(instances), instances[k] != nil && instances[k].wg != nil)
 //@   ensures forall(k, 0, len(instances), instances[k] != nil && instances[k].wg != nil)
 //@   requires i != nil && i.wg != nil
-//@   modifies ghost:hooksPurged, ptr:error, ptr:*github.com/tmpim/casket.Instance
+//@   modifies ghost:hooksPurged, ptr:error, ptr:*github.com/tmpim/casket.Instance, G:github.com/tmpim/casket.instances, E:*github.com/tmpim/casket.Instance, G:github.com/tmpim/casket.started, Instance.casketfileInput, Instance.context, Instance.OnFirstStartup, Instance.OnStartup, Instance.OnRestart, Instance.OnRestartFailed, Instance.OnShutdown, Instance.OnFinalShutdown, Instance.Storage, E:ServerListener, Instance.servers, MV:map[int]map[string]interface{}, MD:map[int]map[string]interface{}, MV:map[string]interface{}, MD:map[string]interface{}
 //@   ensures (result1 == nil ==> hooksPurged == 0) && (result1 != nil ==> hooksPurged == old(hooksPurged))
 //@ func getCurrentCasketfile
 //@   ensures result2 == nil ==> (result1 != nil && result1.wg != nil)
@@ -304,7 +304,7 @@ package casket
 //@ func trapSignalsPosix$1
 //@   requires hooksPurged == 0
 //@   at call (*Instance).Restart cover [reload_runs_in_the_signal_loop_itself_one_at_a_time] hooksPurged == 1
-//@   modifies ghost:hooksPurged, ghost:savedHooks, ptr:error, ptr:*github.com/tmpim/casket.Instance, G:github.com/tmpim/casket.instances, E:*github.com/tmpim/casket.Instance
+//@   modifies ghost:hooksPurged, ghost:savedHooks, ptr:error, ptr:*github.com/tmpim/casket.Instance, G:github.com/tmpim/casket.instances, E:*github.com/tmpim/casket.Instance, G:github.com/tmpim/casket.started, Instance.casketfileInput, Instance.context, Instance.OnFirstStartup, Instance.OnStartup, Instance.OnRestart, Instance.OnRestartFailed, Instance.OnShutdown, Instance.OnFinalShutdown, Instance.Storage, E:ServerListener, Instance.servers
 //@   loop 1 invariant [hooks_intact_between_signals] hooksPurged == 0
 //@   loop 1 invariant [instance_list_stays_live] forall(k, 0, len(instances), instances[k] != nil && instances[k].wg != nil)
 
